@@ -495,6 +495,11 @@ def _quantiles(n):
 
 def _fit_multi(X, num_features=10_000, max_dilations_per_kernel=32, seed=None):
 
+    # the channel combinations below are drawn here, before `_fit_biases_multi`
+    # applies the seed: seed first, so that `random_state` determines them too
+    if seed is not None:
+        np.random.seed(seed)
+
     _, n_columns, n_timepoints = X.shape
 
     num_kernels = 84
